@@ -9,5 +9,7 @@ CONSTANTS
   FullOffsets <- OffLow
   LiteOffsets <- OffHigh
   AllOnlyOffsets <- OffNone
-INVARIANTS TypeOK PExact PIdempotent PHistory PCore PIdentity PModule PSanity Emit
+  RouteSteps = 0
+  RouteFull = FALSE
+INVARIANTS TypeOK PExact PIdempotent PHistory PCore PIdentity PRoute PModule PSanity Emit
 CHECK_DEADLOCK FALSE
